@@ -65,6 +65,10 @@ func init() {
 				if w.Sep.Kind == "altempty" || (taint && w.Sep.Kind == "preset") {
 					w.Sep = SepCfg{Kind: "char", Char: pick(r, taintPool)}
 				}
+				if r.Chance(0.1) {
+					// a caller-written separator function reporting a nonsensical entropy
+					w.Sep = SepCfg{Kind: "weird", Char: pick(r, taintPool), Preset: pick(r, []string{"nan", "neg", "inf"})}
+				}
 				s.WL = &w
 			}
 			return s
@@ -193,8 +197,19 @@ func (l *leakCtx) checkOp(res OpResult, what string) bool {
 			ix, err := res.P.Tokens().MakeIndices()
 			if err != nil {
 				errText = err.Error()
-			} else if _, err := spg.Tokenize(res.P.String(), ix, res.P.Entropy); err != nil {
-				errText = err.Error()
+			} else {
+				if _, err := spg.Tokenize(res.P.String(), ix, res.P.Entropy); err != nil {
+					errText = err.Error()
+				}
+				// the stored string picked up a trailing newline; the index belongs to a shorter password
+				if _, err := spg.Tokenize(res.P.String()+"\n", ix, res.P.Entropy); err != nil {
+					errText += " " + err.Error()
+				}
+				if len(ix) > 2 {
+					if _, err := spg.Tokenize(res.P.String(), ix[:len(ix)-1], res.P.Entropy); err != nil {
+						errText += " " + err.Error()
+					}
+				}
 			}
 		}()
 		out := since(m)
@@ -291,7 +306,7 @@ func runC18(c *Ctx, si interface{}) {
 			l.addWord(w)
 			l.addWord(strings.Title(w))
 		}
-		if cfg.Sep.Kind == "char" {
+		if cfg.Sep.Kind == "char" || cfg.Sep.Kind == "weird" {
 			l.addWord(cfg.Sep.Char)
 		}
 		if cfg.Sep.Kind == "recipe" {
